@@ -405,12 +405,12 @@ def run(ctx):
 CLAIM = {
     'technique': 'flush typestate with the chunk-end function inlined and constant arguments propagated, sentinel '
                  'consistency rule, layout table comparison, linear conservation per loop segment, write/index '
-                 'pairing, relational order facts, stale-cache dataflow',
+                 'pairing, relational order facts, stale-cache dataflow, write-retry continuation (result symbols, bounded unrolling), guarded-length lint by Fourier-Motzkin elimination and deferred-flush lint over the zck tool\'s scanner, std-descriptor reservation dominance in every tool main()',
     'text': 'static analysis: decides necessary conditions C01-a..f - a successful close cannot leave a refused final '
             'chunk unwritten; the temp descriptor cannot take its sentinel value; writer and reader agree on the header '
             'layout; zck_write hands every byte of the buffer to the compressor exactly once; what goes to the temp '
             'file is what is indexed and hashed, and the body follows the header; the two known stuck states of the '
-            'write loop are excluded. Byte equality, zstd and termination in general are not decided.',
+            'write loop are excluded. Byte equality, zstd and termination in general are not decided. Also C01-g..i: a retried write continues where the previous one stopped; in the zck tool a positive-length write is never skipped by its guard and held-back bytes are flushed after the read loop; every tool fills descriptors 0..2 before opening anything.',
     'note': 'trusted: clang 14 front end; linear forms over access paths; comp_write consumes exactly the size it is '
             'given (its own return check is C12)',
 }
